@@ -87,6 +87,31 @@ func extractNumberPart(formatStr string) string {
 	return strings.TrimSpace(result)
 }
 
+// formatIsFaithful reports whether FormatNumber(qty, format) is read back by the journal
+// parser as the same quantity: the format must have at least as many decimals as qty carries
+// (no rounding), and the result must not be a number with a single mark followed by exactly
+// three digits after a non-zero integer part, which the parser takes for a grouped integer
+// ("1,234" is 1234, see normalizeNumber).
+func formatIsFaithful(qty decimal.Decimal, format NumberFormat) bool {
+	places := int32(0)
+	if format.HasDecimal {
+		places = int32(format.DecimalPlaces)
+	}
+	rounded := qty.Round(places)
+	if !rounded.Equal(qty) {
+		return false
+	}
+	if places == 3 {
+		intPart := rounded.Truncate(0)
+		grouped := (format.ThousandsSep == "," || format.ThousandsSep == ".") &&
+			intPart.Abs().Cmp(decimal.NewFromInt(1000)) >= 0
+		if !intPart.IsZero() && !grouped {
+			return false
+		}
+	}
+	return true
+}
+
 func FormatNumber(qty decimal.Decimal, format NumberFormat) string {
 	var str string
 	if format.HasDecimal {
